@@ -10,7 +10,7 @@ program would read different objects through it). `OracleFlat ρ` excludes exact
 scalar (`nil`, boolean, number, string) or a builtin name.
 
 * `oracleFlat_iff` — `OracleFlat` is the pointwise decidable check `Val.isFlat`;
-* `ExtOracle.ofScalars` — the oracles that factor through canonical scalars; all of them are flat, and every
+* `ExtOracle.ofScalarsU` — the oracles that factor through canonical scalars; all of them are flat, and every
   flat oracle is of this form up to the number representation (`oracleFlat_ofScalars`);
 * `driverOracle_flat` — the oracle of the model driver (`Shared/Driver.lean`, the one the harness runs) is
   flat: theorems instantiated at `driverOracle` need no hypothesis (`OracleFlat.driver`).
@@ -52,10 +52,10 @@ def Scalar.toVal : Scalar N → Val N
 theorem Scalar.toVal_flat (s : Scalar N) : Val.flat s.toVal := by cases s <;> trivial
 
 /-- an oracle given by scalar results -/
-def _root_.DarkluaModel.Sem.ExtOracle.ofScalars (g : String → Nat → List CVal → List (Scalar N)) : ExtOracle N :=
+def _root_.DarkluaModel.Sem.ExtOracle.ofScalarsU (g : String → Nat → List CVal → List (Scalar N)) : ExtOracle N :=
   fun name k args => (g name k args).map Scalar.toVal
 
-theorem oracleFlat_ofScalars (g : String → Nat → List CVal → List (Scalar N)) : OracleFlat (ExtOracle.ofScalars g) := by
+theorem oracleFlat_ofScalars (g : String → Nat → List CVal → List (Scalar N)) : OracleFlat (ExtOracle.ofScalarsU g) := by
   intro name k args v hv
   obtain ⟨s, _, rfl⟩ := List.mem_map.mp hv
   exact s.toVal_flat
@@ -69,9 +69,9 @@ def Scalar.ofVal : Val N → Scalar N
 
 /-- conversely every flat oracle is given by scalar results -/
 theorem OracleFlat.eq_ofScalars {ρ : ExtOracle N} (h : OracleFlat ρ) :
-    ρ = ExtOracle.ofScalars fun name k args => (ρ name k args).map Scalar.ofVal := by
+    ρ = ExtOracle.ofScalarsU fun name k args => (ρ name k args).map Scalar.ofVal := by
   funext name k args
-  simp only [ExtOracle.ofScalars, List.map_map]
+  simp only [ExtOracle.ofScalarsU, List.map_map]
   symm
   calc List.map (Scalar.toVal ∘ Scalar.ofVal) (ρ name k args)
       = List.map id (ρ name k args) := List.map_congr_left fun v hv => by
